@@ -30,9 +30,17 @@ EXTENDS Expr, FiniteSets, TLC, Json, Tables_angular, Records_angular
 \*   Tier     "quick" | "thorough" | "emit" (no records yet: only laws + emission)
 \*   Extra    set of <<method, degree>> additionally selected by the harness (seeded 10 %)
 \*   Rec      [method |-> sequence of records
-\*               [degree, size, deg_attr, size_attr, npoints, nweights, unit_bad, nobl, nfail, nonfinite]]
+\*               [degree, size, deg_attr, size_attr, npoints, nweights, unit_bad, nobl, nfail, nonfinite,
+\*                nint, nint_fail]]                  (nint.. : obligations discharged through Grid.integrate)
+\*   Seed     VERIF_SEED (varies the "other" degree of the mixed degree / size call forms)
+\*   DefaultDegree, DefaultMethod   defaults of the signature AngularGrid(degree=50, *, method="lebedev")
+\*            (read from the signature at check time)
+\*   RouteRec [method |-> sequence over the catalogue index of sequences of route records
+\*               [form, status, deg_attr, size_attr, npoints, nweights, same, nobl, nfail, unit_bad]]
 
 Force(f_) == IF f_ = f_ THEN f_ ELSE f_
+RECURSIVE SetToSeqC(_)
+SetToSeqC(S_) == IF S_ = {} THEN <<>> ELSE LET x_ == CHOOSE y_ \in S_ : TRUE IN <<x_>> \o SetToSeqC(S_ \ {x_})
 
 \* ---- catalogue -------------------------------------------------------------
 NEntries(mt_) == Len(DegTab[mt_])
@@ -46,6 +54,19 @@ HarmonicObligations(d_) == {<<l_, m_>> \in (0..d_) \X (-d_..d_) : -l_ <= m_ /\ m
 Expected(l_, m_) == IF l_ = 0 THEN Sqrt(Bin("mul", CI(4), Pi)) ELSE CI(0)
 RECURSIVE SumObl(_, _)
 SumObl(mt_, i_) == IF i_ = 0 THEN 0 ELSE NHarmonic(Entry(mt_, i_)[1]) + SumObl(mt_, i_ - 1)
+
+\* ---- obligations on the grid's OWN integrate method ------------------------------------
+\* "the grid integrates every real spherical harmonic": the harmonic obligations above are discharged on
+\* (points, weights); the same linear functional is offered as AngularGrid.integrate(values).  It is
+\* linear in the weights, so agreement on a spanning handful of rows decides whether it is the functional
+\* SUM_i w_i f(p_i): all (l, m) with l <= min(degree, 2) for every grid, and the complete top row
+\* l = degree where tabulating that row is cheap (size * (2 degree + 1) <= IntCap values).
+IntCap == 400000
+MinI(a_, b_) == IF a_ <= b_ THEN a_ ELSE b_
+IntegrateDegrees(d_, s_) == (0..MinI(d_, 2)) \cup (IF s_ * (2 * d_ + 1) <= IntCap THEN {d_} ELSE {})
+RECURSIVE SumRows(_)
+SumRows(S_) == IF S_ = {} THEN 0 ELSE LET l_ == CHOOSE x_ \in S_ : TRUE IN (2 * l_ + 1) + SumRows(S_ \ {l_})
+NIntegrate(d_, s_) == SumRows(IntegrateDegrees(d_, s_))
 
 \* ---- which grids a tier must discharge -------------------------------------------
 Required(mt_, i_) ==
@@ -103,6 +124,8 @@ Why(r_) ==   \* sequence of the failed clauses of a record
     \o (IF r_.unit_bad # 0 THEN <<"unit-norm">> ELSE <<>>)
     \o (IF r_.nobl # NHarmonic(CurDeg) THEN <<"obligations-not-all-discharged">> ELSE <<>>)
     \o (IF r_.nfail # 0 \/ r_.nonfinite # 0 THEN <<"harmonic-integrals">> ELSE <<>>)
+    \o (IF r_.nint # NIntegrate(CurDeg, CurSize) THEN <<"integrate-obligations-not-all-discharged">> ELSE <<>>)
+    \o (IF r_.nint_fail # 0 THEN <<"integrate-method">> ELSE <<>>)
 \* every required grid has a record (nothing skipped) ...
 AllRequiredDischarged ==
     AtGrid /\ Tier # "emit" /\ Required(cmeth, cidx) =>
@@ -123,13 +146,193 @@ EntrySeq(mt_, i_) == IF i_ > NEntries(mt_) THEN <<>>
     ELSE <<[method |-> mt_, index |-> i_, degree |-> Entry(mt_, i_)[1], size |-> Entry(mt_, i_)[2],
             file |-> FileName(mt_, Entry(mt_, i_)[1], Entry(mt_, i_)[2]),
             nharmonic |-> NHarmonic(Entry(mt_, i_)[1]),
+            integrate_degrees |-> SetToSeqC(IntegrateDegrees(Entry(mt_, i_)[1], Entry(mt_, i_)[2])),
             required_quick |-> (mt_ \in {"lebedev", "ahrens_beylkin"} \/ i_ % 8 = 1)]>> \o EntrySeq(mt_, i_ + 1)
-RECURSIVE SetToSeqC(_)
-SetToSeqC(S_) == IF S_ = {} THEN <<>> ELSE LET x_ == CHOOSE y_ \in S_ : TRUE IN <<x_>> \o SetToSeqC(S_ \ {x_})
 CatalogueEmission ==
     [grids |-> [mt_ \in Methods |-> EntrySeq(mt_, 1)],
      expected_l0 |-> Expected(0, 0), expected_other |-> Expected(1, 0),
      total_harmonic_obligations |-> [mt_ \in Methods |-> SumObl(mt_, NEntries(mt_))],
      orphans |-> SetToSeqC(Orphans)]
 ASSUME Tier # "emit" \/ JsonSerialize("catalogue.json", CatalogueEmission)
+
+\* ---- construction routes ---------------------------------------------------------------------
+\* "every angular quadrature that can be constructed": the catalogue entry (method, degree) is reached by
+\* many call forms of AngularGrid(degree=50, *, size=None, cache=True, method="lebedev") and in many states
+\* of the module-level caches.  A ROUTE CASE is a short history of constructor calls, the last of which is
+\* observed.  The generator below names, for the entry i of a method (degree d, size s, predecessor
+\* d0 / s0 in the table), the histories that must hand out that entry by the documented resolution rule
+\* (smallest supported degree >= request; smallest supported size >= request; size wins over degree;
+\* the method name is case-folded; numpy integers are integers).
+\*
+\* What C02 demands of the grid g a route hands out is judged on g's OWN advertisement:
+\*   advertised-pair   <<g.degree, g.size>> is an entry of the method's table
+\*   number-of-points  g has g.size points and weights
+\*   exactness         g is, bit for bit, the canonical grid AngularGrid(degree=g.degree, method) that the
+\*                     harmonic obligations are discharged on (same = TRUE), or else the harness discharged
+\*                     the unit-norm and harmonic obligations on g itself (nobl of them, none failed)
+\* A call the constructor REJECTS with ValueError constructs nothing (status "rejected"); any other exception
+\* is a failed construction.  Which entry a request resolves to is C12's law: a route that lands on another
+\* entry than the generator expects is only NOTEd here.
+OptC(b_, x_) == IF b_ THEN <<x_>> ELSE <<>>
+PrevDeg(mt_, i_) == IF i_ = 1 THEN -1 ELSE Entry(mt_, i_ - 1)[1]
+PrevSize(mt_, i_) == IF i_ = 1 THEN -1 ELSE Entry(mt_, i_ - 1)[2]
+MaxDeg(mt_) == Entry(mt_, NEntries(mt_))[1]
+MaxSize(mt_) == Entry(mt_, NEntries(mt_))[2]
+\* smallest numpy integer type that holds the value (unsigned first: arithmetic on it wraps earliest)
+SmallNp(v_) == IF v_ <= 255 THEN "uint8" ELSE IF v_ <= 32767 THEN "int16" ELSE IF v_ <= 65535 THEN "uint16" ELSE "int32"
+\* one constructor call.  degree / size: -1 = argument omitted, -2 = None, else the value, passed as
+\* dtype / stype ("int", a numpy integer type, "0d" = 0-dimensional integer array, "float");
+\* method "" = argument omitted; spell = how the method name is written; edit = the caller modifies the
+\* arrays of the returned grid in place afterwards (its own data: later grids must not notice)
+Call0 == [method |-> "", spell |-> "lower", degree |-> -1, dtype |-> "int", positional |-> FALSE,
+          size |-> -1, stype |-> "int", cache |-> "omit", edit |-> FALSE]
+ByDeg(mt_, v_) == [Call0 EXCEPT !.method = mt_, !.degree = v_]
+BySize(mt_, v_) == [Call0 EXCEPT !.method = mt_, !.size = v_]
+\* forms the documented interface does not admit (not integers): rejecting them (ValueError or TypeError) is expected
+MayReject(f_) == f_ \in {"degree-0d-array", "degree-float"}
+Case(f_, pre_, c_) == [form |-> f_, pre |-> pre_, call |-> c_, may_reject |-> MayReject(f_)]
+OtherMethods(mt_) == SetToSeqC(Methods \ {mt_})
+RECURSIVE OthersByDeg(_, _)
+OthersByDeg(ms_, d_) == IF ms_ = <<>> THEN <<>>
+    ELSE OptC(d_ <= MaxDeg(Head(ms_)), ByDeg(Head(ms_), d_)) \o OthersByDeg(Tail(ms_), d_)
+RECURSIVE OthersBySize(_, _)
+OthersBySize(ms_, s_) == IF ms_ = <<>> THEN <<>>
+    ELSE OptC(s_ <= MaxSize(Head(ms_)), BySize(Head(ms_), s_)) \o OthersBySize(Tail(ms_), s_)
+\* some other entry of the same method (varies with the seed), for the mixed degree + size forms
+OtherIndex(mt_, i_) == LET n_ == NEntries(mt_)
+                           j_ == ((i_ + 7 * Seed + 2) % n_) + 1
+                       IN IF j_ # i_ THEN j_ ELSE (j_ % n_) + 1
+RouteCases(mt_, i_) ==
+    LET d_ == Entry(mt_, i_)[1]
+        s_ == Entry(mt_, i_)[2]
+        d0_ == PrevDeg(mt_, i_)
+        s0_ == PrevSize(mt_, i_)
+        od_ == Entry(mt_, OtherIndex(mt_, i_))[1]
+        canon_ == ByDeg(mt_, d_)
+        bysz_ == BySize(mt_, s_)
+    IN  \* ---- the request is the degree itself
+        << Case("degree", <<>>, canon_),
+           Case("degree-nocache", <<>>, [canon_ EXCEPT !.cache = "false"]),
+           Case("degree-cache-true", <<>>, [canon_ EXCEPT !.cache = "true"]),
+           Case("degree-positional", <<>>, [canon_ EXCEPT !.positional = TRUE]),
+           Case("degree-warm", <<canon_>>, canon_),
+           Case("degree-warm-twice", <<canon_, canon_>>, canon_),
+           Case("degree-after-nocache", <<[canon_ EXCEPT !.cache = "false"]>>, canon_),
+           Case("degree-nocache-after-warm", <<canon_>>, [canon_ EXCEPT !.cache = "false"]),
+           Case("degree-after-edit", <<[canon_ EXCEPT !.edit = TRUE]>>, canon_),
+           Case("degree-after-edit-of-second", <<canon_, [canon_ EXCEPT !.edit = TRUE]>>, canon_),
+           Case("degree-after-edit-nocache", <<[canon_ EXCEPT !.edit = TRUE, !.cache = "false"]>>, canon_),
+           Case("degree-after-other-methods", OthersByDeg(OtherMethods(mt_), d_), canon_),
+           Case("degree-after-neighbours", OptC(i_ > 1, ByDeg(mt_, Entry(mt_, IF i_ > 1 THEN i_ - 1 ELSE 1)[1]))
+                                           \o OptC(i_ < NEntries(mt_), ByDeg(mt_, Entry(mt_, IF i_ < NEntries(mt_) THEN i_ + 1 ELSE i_)[1])),
+                canon_),
+           Case("degree-np-small", <<>>, [canon_ EXCEPT !.dtype = SmallNp(d_)]),
+           Case("degree-np-int64", <<>>, [canon_ EXCEPT !.dtype = "int64"]),
+           Case("degree-np-warm", <<canon_>>, [canon_ EXCEPT !.dtype = "int64"]),
+           Case("degree-after-np", <<[canon_ EXCEPT !.dtype = SmallNp(d_)]>>, canon_),
+           Case("degree-0d-array", <<>>, [canon_ EXCEPT !.dtype = "0d"]),
+           Case("degree-float", <<>>, [canon_ EXCEPT !.dtype = "float"]),
+           Case("method-upper", <<>>, [canon_ EXCEPT !.spell = "upper"]),
+           Case("method-title", <<>>, [canon_ EXCEPT !.spell = "title"]),
+           Case("method-swapcase-warm", <<canon_>>, [canon_ EXCEPT !.spell = "mixed"]),
+           Case("method-upper-by-size", <<>>, [bysz_ EXCEPT !.spell = "upper"]),
+           \* ---- the request is the size
+           Case("size", <<>>, bysz_),
+           Case("size-degree-none", <<>>, [bysz_ EXCEPT !.degree = -2]),
+           Case("size-nocache", <<>>, [bysz_ EXCEPT !.cache = "false"]),
+           Case("size-warm", <<canon_>>, bysz_),
+           Case("size-warm-by-size", <<bysz_>>, bysz_),
+           Case("degree-warm-by-size", <<bysz_>>, canon_),
+           Case("size-after-edit", <<[bysz_ EXCEPT !.edit = TRUE]>>, bysz_),
+           Case("size-after-other-methods", OthersBySize(OtherMethods(mt_), s_), bysz_),
+           Case("size-np-small", <<>>, [bysz_ EXCEPT !.stype = SmallNp(s_)]),
+           Case("size-np-int64", <<>>, [bysz_ EXCEPT !.stype = "int64"]),
+           \* size wins over a degree given with it (of another entry, as int and as the same number)
+           Case("size-with-other-degree", <<>>, [bysz_ EXCEPT !.degree = od_]),
+           Case("size-with-other-degree-positional", <<>>, [bysz_ EXCEPT !.degree = od_, !.positional = TRUE]),
+           Case("size-with-other-degree-warm", <<ByDeg(mt_, od_)>>, [bysz_ EXCEPT !.degree = od_]),
+           Case("size-with-own-degree", <<>>, [bysz_ EXCEPT !.degree = d_]) >>
+        \* ---- requests strictly between two supported values round up to this entry
+        \o OptC(d0_ + 1 < d_, Case("degree-lowest-request", <<>>, ByDeg(mt_, d0_ + 1)))
+        \o OptC(d0_ + 1 < d_, Case("degree-lowest-request-warm", <<canon_>>, ByDeg(mt_, d0_ + 1)))
+        \o OptC(d0_ + 1 < d_, Case("degree-lowest-request-first", <<ByDeg(mt_, d0_ + 1)>>, canon_))
+        \o OptC(d0_ + 2 < d_, Case("degree-just-below", <<>>, ByDeg(mt_, d_ - 1)))
+        \o OptC(d0_ + 1 < d_, Case("degree-lowest-request-np", <<>>, [ByDeg(mt_, d0_ + 1) EXCEPT !.dtype = SmallNp(d0_ + 1)]))
+        \o OptC(s0_ + 1 < s_, Case("size-lowest-request", <<>>, BySize(mt_, s0_ + 1)))
+        \o OptC(s0_ + 1 < s_, Case("size-lowest-request-warm", <<canon_>>, BySize(mt_, s0_ + 1)))
+        \o OptC(s0_ + 2 < s_, Case("size-just-below", <<>>, BySize(mt_, s_ - 1)))
+        \o OptC(s0_ + 1 < s_, Case("size-lowest-request-np", <<>>, [BySize(mt_, s0_ + 1) EXCEPT !.stype = SmallNp(s0_ + 1)]))
+        \* ---- defaults of the signature
+        \o OptC(mt_ = DefaultMethod, Case("method-omitted", <<>>, [canon_ EXCEPT !.method = ""]))
+        \o OptC(mt_ = DefaultMethod, Case("method-omitted-by-size", <<>>, [bysz_ EXCEPT !.method = ""]))
+        \o OptC(d0_ < DefaultDegree /\ DefaultDegree <= d_, Case("degree-omitted", <<>>, [canon_ EXCEPT !.degree = -1]))
+        \o OptC(d0_ < DefaultDegree /\ DefaultDegree <= d_, Case("degree-omitted-warm", <<canon_>>, [canon_ EXCEPT !.degree = -1]))
+        \o OptC(d0_ < DefaultDegree /\ DefaultDegree <= d_ /\ mt_ = DefaultMethod,
+                Case("all-omitted", <<>>, Call0))
+        \o OptC(d0_ < DefaultDegree /\ DefaultDegree <= d_ /\ mt_ = DefaultMethod,
+                Case("all-omitted-nocache", <<>>, [Call0 EXCEPT !.cache = "false"]))
+RECURSIVE RouteSeq(_, _)
+RouteSeq(mt_, i_) == IF i_ > NEntries(mt_) THEN <<>> ELSE <<RouteCases(mt_, i_)>> \o RouteSeq(mt_, i_ + 1)
+RouteEmission == [mt_ \in Methods |-> RouteSeq(mt_, 1)]
+ASSUME Tier # "emit" \/ JsonSerialize("routes.json", RouteEmission)
+
+\* ---- judging the route records (one grid per state, like the accounting above) -------------------
+PairSetOf == Force([mt_ \in Methods |-> {Entry(mt_, i_) : i_ \in 1..NEntries(mt_)}])
+HasRoutes == Tier # "emit" /\ Len(RouteRec[cmeth]) >= cidx
+CurRoutes == RouteRec[cmeth][cidx]
+RouteWhy(c_, r_) ==
+    IF r_.form # c_.form THEN <<"record-is-of-another-case">>
+    ELSE IF r_.status = "error" THEN <<"construction-failed">>
+    ELSE IF r_.status = "rejected" THEN <<>>
+    ELSE (IF <<r_.deg_attr, r_.size_attr>> \notin PairSetOf[cmeth] THEN <<"advertised-pair-not-in-catalogue">> ELSE <<>>)
+      \o (IF r_.npoints # r_.size_attr \/ r_.nweights # r_.size_attr THEN <<"number-of-points">> ELSE <<>>)
+      \o (IF ~r_.same /\ r_.unit_bad # 0 THEN <<"unit-norm">> ELSE <<>>)
+      \o (IF ~r_.same /\ r_.nfail # 0 THEN <<"harmonic-integrals">> ELSE <<>>)
+\* things worth telling that are no violation of C02
+RouteNote(c_, r_) ==
+    IF r_.form # c_.form \/ r_.status = "error" THEN <<>>
+    ELSE IF r_.status = "rejected" THEN (IF MayReject(c_.form) THEN <<>> ELSE <<"rejected">>)
+    ELSE (IF r_.deg_attr # CurDeg THEN <<"resolved-to-another-entry">> ELSE <<>>)
+      \o (IF MayReject(c_.form) THEN <<"accepted-a-non-integer">> ELSE <<>>)
+      \o (IF ~r_.same /\ r_.nobl = 0 THEN <<"differs-from-canonical-and-could-not-be-judged">> ELSE <<>>)
+      \o (IF ~r_.same /\ r_.nfail = 0 /\ r_.unit_bad = 0 /\ r_.nobl > 0
+             /\ <<r_.deg_attr, r_.size_attr>> \in PairSetOf[cmeth] /\ r_.nobl < NHarmonic(r_.deg_attr)
+          THEN <<"differs-from-canonical-partly-judged">> ELSE <<>>)
+      \o (IF ~r_.same /\ r_.nfail = 0 /\ r_.unit_bad = 0 /\ r_.nobl > 0
+             /\ <<r_.deg_attr, r_.size_attr>> \in PairSetOf[cmeth] /\ r_.nobl >= NHarmonic(r_.deg_attr)
+          THEN <<"differs-from-canonical-but-exact">> ELSE <<>>)
+\* every route case of every grid was run (both tiers run all of them) ...
+AllRoutesRun ==
+    AtGrid /\ Tier # "emit" =>
+        (HasRoutes /\ Len(CurRoutes) = Len(RouteCases(cmeth, cidx)))
+        \/ PrintT(<<"MISMATCH", cmeth, CurDeg, CurSize, FileName(cmeth, CurDeg, CurSize), <<"routes-not-all-run">>>>)
+\* ... and handed out a grid that meets the obligations of what it advertises
+RoutesClean ==
+    AtGrid /\ HasRoutes /\ Len(CurRoutes) = Len(RouteCases(cmeth, cidx)) =>
+        LET cs_ == RouteCases(cmeth, cidx) IN
+        \A k_ \in 1..Len(cs_) :
+            /\ RouteWhy(cs_[k_], CurRoutes[k_]) = <<>>
+               \/ PrintT(<<"ROUTE", cmeth, CurDeg, CurSize, FileName(cmeth, CurDeg, CurSize), cs_[k_].form, RouteWhy(cs_[k_], CurRoutes[k_])>>)
+            /\ RouteNote(cs_[k_], CurRoutes[k_]) = <<>>
+               \/ PrintT(<<"RNOTE", cmeth, CurDeg, CurSize, FileName(cmeth, CurDeg, CurSize), cs_[k_].form, RouteNote(cs_[k_], CurRoutes[k_])>>)
+\* the generator's own laws: the canonical call comes first, form names are unique per grid, and every
+\* request lies in the interval of requests the resolution rule maps to this entry
+RouteGeneratorLaws ==
+    AtGrid =>
+        LET cs_ == RouteCases(cmeth, cidx) IN
+        /\ cs_[1].form = "degree" /\ cs_[1].pre = <<>> /\ cs_[1].call = ByDeg(cmeth, CurDeg)
+        /\ \A k_, j_ \in 1..Len(cs_) : k_ # j_ => cs_[k_].form # cs_[j_].form
+        /\ \A k_ \in 1..Len(cs_) :
+              LET c_ == cs_[k_].call IN
+              /\ c_.method \in {cmeth, ""} /\ (c_.method = "" => cmeth = DefaultMethod)
+              /\ IF c_.size >= 0 THEN PrevSize(cmeth, cidx) < c_.size /\ c_.size <= CurSize
+                 ELSE LET q_ == IF c_.degree = -1 THEN DefaultDegree ELSE c_.degree IN
+                      PrevDeg(cmeth, cidx) < q_ /\ q_ <= CurDeg
+\* a grid can be named by its size as well: the size table must describe the same catalogue
+SizeTableNamesTheSameCatalogue ==
+    Idle => \A mt_ \in Methods :
+               {<<SizeTab[mt_][k_][2], SizeTab[mt_][k_][1]>> : k_ \in 1..Len(SizeTab[mt_])} = PairSetOf[mt_]
+\* the resolution rule walks the tables in order: they must be sorted
+TablesSortedByDegree ==
+    Idle => \A mt_ \in Methods : \A i_ \in 1..NEntries(mt_) - 1 : Entry(mt_, i_)[1] < Entry(mt_, i_ + 1)[1]
 =============================================================================
